@@ -445,6 +445,8 @@ fn decode(gen: Gen, buf: &[u8]) -> Result<RunResult, String> {
         fs_mutations,
         metadata_queries,
         disk_after: disk,
+        intruder: None,
+        company_ambiguous: false,
     })
 }
 
